@@ -1,590 +1,15 @@
 package c16
 
 import (
-	"context"
-	"errors"
-	"fmt"
-	"math"
-	"runtime"
 	"testing"
 
-	"github.com/cloudwego/dynamicgo/conv"
-	"github.com/cloudwego/dynamicgo/conv/j2t"
-	"github.com/cloudwego/dynamicgo/conv/t2j"
-	"github.com/cloudwego/dynamicgo/meta"
-	"github.com/cloudwego/dynamicgo/thrift"
-	"github.com/cloudwego/dynamicgo/thrift/generic"
-	"pgregory.net/rapid"
-
-	"verifharness/jmodel"
 	"verifharness/pbt"
-	"verifharness/tjson"
-	tm "verifharness/tmodel"
+	"verifharness/reqcheck"
 )
 
 func TestMain(m *testing.M)   { pbt.Main(m, "C16") }
 func TestReplay(t *testing.T) { pbt.Replay(t) }
 
-type Opts struct {
-	WriteRequire  bool `json:"write_require,omitempty"`
-	WriteDefault  bool `json:"write_default,omitempty"`
-	WriteOptional bool `json:"write_optional,omitempty"`
-	Disallow      bool `json:"disallow_unknown,omitempty"`
-	// parse options
-	SetOptionalBitmap bool `json:"set_optional_bitmap,omitempty"`
-	UseDefaultValue   bool `json:"use_default_value,omitempty"`
-	// generic cutting
-	NotCheckRequire bool `json:"not_check_requireness,omitempty"`
-}
-
-type Case struct {
-	U *tm.Universe `json:"u"`
-	V *tm.Value    `json:"v"` // conforming value presenting any subset of the declared fields (required ones may be absent)
-	O Opts         `json:"o"`
-	// JSON document denoting V (members in V's order), with null members for some absent fields and optionally unknown members
-	Text    []byte `json:"text"`
-	Show    string `json:"show"`
-	Unknown int    `json:"unknown"` // number of unknown members in Text
-	// Thrift message for V with WireUnknown undeclared fields added
-	Msg         []byte `json:"msg"`
-	WireUnknown int    `json:"wire_unknown"`
-	FreshPools  bool   `json:"fresh_pools,omitempty"`
-}
-
-// ---------------------------------------------------------------------------
-// model
-
-var errMissing = errors.New("missing required field")
-
-type rule int
-
-const (
-	ruleConv rule = iota // j2t / t2j: HandleRequires semantics
-	ruleCut              // generic MarshalTo
-)
-
-// fill returns the value a converter must produce for input value v: every present field kept, absent declared
-// fields added per the documented rule (after the present ones, ascending id), or errMissing.
-// optionalEither collects paths of absent optional fields for which cutting may or may not write (see plan assumptions).
-func fill(v *tm.Value, ty *tm.Type, u *tm.Universe, o Opts, r rule) (*tm.Value, error) {
-	switch ty.K {
-	case tm.STRUCT:
-		sd := u.Struct(ty.Ref)
-		out := &tm.Value{K: tm.STRUCT}
-		for _, f := range v.Fields {
-			fd := sd.Field(f.ID)
-			if fd == nil {
-				continue // unknown: dropped (or rejected, decided by the caller)
-			}
-			c, err := fill(f.V, fd.T, u, o, r)
-			if err != nil {
-				return nil, err
-			}
-			out.Fields = append(out.Fields, tm.FieldVal{ID: f.ID, V: c})
-		}
-		if r == ruleCut && o.NotCheckRequire {
-			return out, nil
-		}
-		ids := make([]int, 0, len(sd.Fields))
-		for i := range sd.Fields {
-			ids = append(ids, int(sd.Fields[i].ID))
-		}
-		sortInts(ids)
-		for _, id := range ids {
-			fd := sd.Field(int16(id))
-			if v.Field(fd.ID) != nil {
-				continue
-			}
-			hasDefault := o.UseDefaultValue && fd.Default != nil
-			write := false
-			switch fd.Req {
-			case tm.ReqRequired:
-				if r == ruleCut || !o.WriteRequire {
-					return nil, errMissing
-				}
-				write = true
-			case tm.ReqDefault:
-				write = o.WriteDefault
-			case tm.ReqOptional:
-				if o.SetOptionalBitmap {
-					if r == ruleCut {
-						write = o.WriteDefault
-					} else {
-						write = o.WriteOptional || hasDefault
-					}
-				}
-			}
-			if !write {
-				continue
-			}
-			val := tm.ZeroValue(fd.T)
-			if hasDefault {
-				val = fd.Default.Clone()
-			}
-			out.Fields = append(out.Fields, tm.FieldVal{ID: fd.ID, V: val})
-		}
-		return out, nil
-	case tm.LIST, tm.SET:
-		out := &tm.Value{K: v.K, ET: v.ET}
-		for _, e := range v.Elems {
-			c, err := fill(e, ty.Elem, u, o, r)
-			if err != nil {
-				return nil, err
-			}
-			out.Elems = append(out.Elems, c)
-		}
-		return out, nil
-	case tm.MAP:
-		out := &tm.Value{K: tm.MAP, KT: v.KT, ET: v.ET}
-		for i, e := range v.Elems {
-			c, err := fill(e, ty.Elem, u, o, r)
-			if err != nil {
-				return nil, err
-			}
-			out.Keys = append(out.Keys, v.Keys[i])
-			out.Elems = append(out.Elems, c)
-		}
-		return out, nil
-	}
-	return v, nil
-}
-
-func sortInts(a []int) {
-	for i := 1; i < len(a); i++ {
-		for j := i; j > 0 && a[j] < a[j-1]; j-- {
-			a[j], a[j-1] = a[j-1], a[j]
-		}
-	}
-}
-
-// optionalWithDefaultAbsent: an absent optional field carrying a parsed default under SetOptionalBitmap exists somewhere
-// (cutting without WriteDefault: the statement does not settle whether it is written; both outcomes are accepted).
-func optionalWithDefaultAbsent(v *tm.Value, ty *tm.Type, u *tm.Universe, o Opts) bool {
-	switch ty.K {
-	case tm.STRUCT:
-		sd := u.Struct(ty.Ref)
-		for i := range sd.Fields {
-			fd := &sd.Fields[i]
-			if c := v.Field(fd.ID); c != nil {
-				if optionalWithDefaultAbsent(c, fd.T, u, o) {
-					return true
-				}
-			} else if fd.Req == tm.ReqOptional && o.SetOptionalBitmap && o.UseDefaultValue && fd.Default != nil {
-				return true
-			}
-		}
-	case tm.LIST, tm.SET, tm.MAP:
-		for _, e := range v.Elems {
-			if optionalWithDefaultAbsent(e, ty.Elem, u, o) {
-				return true
-			}
-		}
-	}
-	return false
-}
-
-func isCode(err error, code meta.ErrCode) bool {
-	var me meta.Error
-	for e := err; e != nil; e = errors.Unwrap(e) {
-		if x, ok := e.(meta.Error); ok {
-			me = x
-			if me.Code.Behavior() == code {
-				return true
-			}
-		}
-	}
-	return false
-}
-
-func errText(err error) string {
-	s := err.Error()
-	if len(s) > 300 {
-		s = s[:300] + "..."
-	}
-	return s
-}
-
-// ---------------------------------------------------------------------------
-
-func check(c *pbt.Ctx, cs Case) {
-	popts := thrift.Options{SetOptionalBitmap: cs.O.SetOptionalBitmap, UseDefaultValue: cs.O.UseDefaultValue}
-	comp, err := tm.CompileUniverse(cs.U, popts)
-	if err != nil {
-		c.Failf("harness-idl", "IDL rejected: %v\n%s", err, cs.U.Render())
-	}
-	if cs.FreshPools {
-		runtime.GC()
-		runtime.GC()
-	}
-	ctx := context.Background()
-	co := conv.Options{WriteRequireField: cs.O.WriteRequire, WriteDefaultField: cs.O.WriteDefault, WriteOptionalField: cs.O.WriteOptional, DisallowUnknownField: cs.O.Disallow}
-	want, werr := fill(cs.V, cs.U.Root, cs.U, cs.O, ruleConv)
-	c.Class(fmt.Sprintf("opts:R=%v,D=%v,O=%v,sob=%v,udv=%v", b(cs.O.WriteRequire), b(cs.O.WriteDefault), b(cs.O.WriteOptional), b(cs.O.SetOptionalBitmap), b(cs.O.UseDefaultValue)))
-
-	// ---- JSON -> Thrift
-	{
-		c.Step("j2t opts=%+v", cs.O)
-		cv := j2t.NewBinaryConv(co)
-		var out []byte
-		text := append(make([]byte, 0, len(cs.Text)+16), cs.Text...)
-		if !c.Protect("", func() { out, err = cv.Do(ctx, comp.Root, text) }) {
-			return
-		}
-		mustUnknown := cs.Unknown > 0 && cs.O.Disallow
-		switch {
-		case mustUnknown || werr != nil:
-			if err == nil {
-				c.Failf("j2t-missing-error", "j2t succeeded (%x) although unknown-disallowed=%v missing-required=%v\ndocument: %s", head(out), mustUnknown, werr != nil, cs.Show)
-				return
-			}
-			if !mustUnknown && !isCode(err, meta.ErrMissRequiredField) {
-				c.Failf("j2t-error-class", "absent required field: error is not ErrMissRequiredField: %s\ndocument: %s", errText(err), cs.Show)
-				return
-			}
-			if werr == nil && !isCode(err, meta.ErrUnknownField) {
-				c.Failf("j2t-error-class", "unknown member with DisallowUnknownField: error is not ErrUnknownField: %s\ndocument: %s", errText(err), cs.Show)
-				return
-			}
-			c.Class("j2t:rejected")
-		case err != nil:
-			c.Failf("j2t-unexpected-error", "j2t fails: %s\ndocument: %s", errText(err), cs.Show)
-			return
-		default:
-			got, derr := tm.DecodeStrict(cs.U.Root.K, out)
-			if derr != nil {
-				c.Failf("j2t-output", "j2t output is not well-formed Thrift: %v\n%x\ndocument: %s", derr, head(out), cs.Show)
-				return
-			}
-			if d := tm.DiffFieldsByID(want, got); d != "" {
-				reg := ""
-				if doc, perr := jmodel.ParseRaw(cs.Text); perr == nil {
-					var ex explain
-					if ex.walk(want, got, doc, cs.U.Root, cs.U, cs.O) {
-						switch {
-						case ex.optDefault && ex.nullOptional:
-							reg = "j2t-native-optional-with-default+null-optional"
-						case ex.optDefault:
-							reg = "j2t-native-optional-with-default"
-						case ex.nullOptional:
-							reg = "j2t-native-null-optional"
-						}
-					}
-				}
-				if !c.Fail(reg, "j2t-fields", "j2t output differs from the rule (want vs got): %s\ndocument: %s", d, cs.Show) {
-					return
-				}
-			}
-		}
-	}
-
-	// ---- Thrift -> JSON
-	{
-		c.Step("t2j opts=%+v", cs.O)
-		cv := t2j.NewBinaryConv(co)
-		var out []byte
-		msg := append(make([]byte, 0, len(cs.Msg)+16), cs.Msg...)
-		if !c.Protect("", func() { out, err = cv.Do(ctx, comp.Root, msg) }) {
-			return
-		}
-		mustUnknown := cs.WireUnknown > 0 && cs.O.Disallow
-		switch {
-		case mustUnknown || werr != nil:
-			if err == nil {
-				c.Failf("t2j-missing-error", "t2j succeeded (%s) although unknown-disallowed=%v missing-required=%v", out, mustUnknown, werr != nil)
-				return
-			}
-			if !mustUnknown && !isCode(err, meta.ErrMissRequiredField) {
-				c.Failf("t2j-error-class", "absent required field: error is not ErrMissRequiredField: %s", errText(err))
-				return
-			}
-			c.Class("t2j:rejected")
-		case err != nil:
-			c.Failf("t2j-unexpected-error", "t2j fails: %s", errText(err))
-			return
-		default:
-			n, perr := jmodel.ParseRaw(out)
-			if perr != nil {
-				c.Failf("t2j-output", "t2j output is not valid JSON: %v\n%s", perr, out)
-				return
-			}
-			if d := tjson.Expect(n, want, cs.U.Root, cs.U, tjson.Opts{AnyOrder: true}, "$"); d != "" {
-				c.Failf("t2j-fields", "t2j output differs from the rule: %s\nJSON: %s", d, show(out))
-				return
-			}
-		}
-	}
-
-	// ---- generic cutting onto an equal, separately parsed descriptor
-	{
-		c.Step("MarshalTo opts=%+v", cs.O)
-		to, err := tm.Compile(cs.U.Render()+"\n// cutting target\n", popts)
-		if err != nil {
-			c.Failf("harness-idl", "IDL rejected: %v", err)
-		}
-		if cs.U.Root.K == tm.STRUCT || cs.U.Root.K.IsContainer() {
-			msg := append(make([]byte, 0, len(cs.Msg)+16), cs.Msg...)
-			val := generic.NewValue(comp.Root, msg)
-			gopts := &generic.Options{WriteDefault: cs.O.WriteDefault, NotCheckRequireNess: cs.O.NotCheckRequire, DisallowUnknow: cs.O.Disallow}
-			var out []byte
-			if !c.Protect("", func() { out, err = val.MarshalTo(to.Root, gopts) }) {
-				return
-			}
-			wantCut, cerr := fill(cs.V, cs.U.Root, cs.U, cs.O, ruleCut)
-			mustUnknown := cs.WireUnknown > 0 && cs.O.Disallow
-			switch {
-			case mustUnknown || cerr != nil:
-				if err == nil {
-					c.Failf("cut-missing-error", "MarshalTo succeeded (%x) although unknown-disallowed=%v missing-required=%v", head(out), mustUnknown, cerr != nil)
-					return
-				}
-				c.Class("cut:rejected")
-			case err != nil:
-				c.Failf("cut-unexpected-error", "MarshalTo fails: %s", errText(err))
-				return
-			default:
-				got, derr := tm.DecodeStrict(cs.U.Root.K, out)
-				if derr != nil {
-					c.Failf("cut-output", "MarshalTo output is not well-formed Thrift: %v\n%x", derr, head(out))
-					return
-				}
-				d := tm.DiffFieldsByID(wantCut, got)
-				if d != "" && !cs.O.WriteDefault && !cs.O.NotCheckRequire && optionalWithDefaultAbsent(cs.V, cs.U.Root, cs.U, cs.O) {
-					// tolerated alternative: optional fields with a parsed default written although WriteDefault is off
-					alt := cs.O
-					alt.WriteOptional = false
-					w2, _ := fillCutAlt(cs.V, cs.U.Root, cs.U, cs.O)
-					if w2 != nil && tm.DiffFieldsByID(w2, got) == "" {
-						d = ""
-					}
-				}
-				if d != "" {
-					c.Failf("cut-fields", "MarshalTo output differs from the rule (want vs got): %s", d)
-					return
-				}
-			}
-		}
-	}
-	if werr == nil && hasAbsent(cs.V, cs.U.Root, cs.U) {
-		c.NonTrivial()
-	}
-	if werr != nil {
-		c.NonTrivial()
-		c.Class("missing-required")
-	}
-}
-
-// explain decides whether every difference between the model's output and the converter's output is one of the
-// two known native deviations: a field the model writes is missing from the output and it is (a) an optional field
-// with a parsed default while WriteOptionalField is off, or (b) an optional field the document presents as null.
-type explain struct {
-	optDefault   bool
-	nullOptional bool
-}
-
-func (ex *explain) walk(want, got *tm.Value, doc *jmodel.Node, ty *tm.Type, u *tm.Universe, o Opts) bool {
-	if want == nil || got == nil || want.K != got.K {
-		return false
-	}
-	switch ty.K {
-	case tm.STRUCT:
-		sd := u.Struct(ty.Ref)
-		for _, g := range got.Fields {
-			if want.Field(g.ID) == nil {
-				return false // the converter wrote something the model does not
-			}
-		}
-		for _, w := range want.Fields {
-			fd := sd.Field(w.ID)
-			g := got.Field(w.ID)
-			var member *jmodel.Node
-			if doc != nil && doc.K == jmodel.Obj {
-				member = doc.Get(tjson.Key(fd))
-			}
-			if g == nil {
-				switch {
-				case fd.Req == tm.ReqOptional && member != nil && member.K == jmodel.Null:
-					ex.nullOptional = true
-				case fd.Req == tm.ReqOptional && !o.WriteOptional && o.UseDefaultValue && fd.Default != nil && member == nil:
-					ex.optDefault = true
-				default:
-					return false
-				}
-				continue
-			}
-			if member == nil || member.K == jmodel.Null {
-				// filled by both: must be equal
-				if tm.DiffFieldsByID(w.V, g) != "" {
-					return false
-				}
-				continue
-			}
-			if !ex.walk(w.V, g, member, fd.T, u, o) {
-				return false
-			}
-		}
-		return true
-	case tm.LIST, tm.SET:
-		if len(want.Elems) != len(got.Elems) || doc == nil || doc.K != jmodel.Arr || len(doc.Elems) != len(want.Elems) {
-			return false
-		}
-		for i := range want.Elems {
-			if !ex.walk(want.Elems[i], got.Elems[i], doc.Elems[i], ty.Elem, u, o) {
-				return false
-			}
-		}
-		return true
-	case tm.MAP:
-		if len(want.Elems) != len(got.Elems) || doc == nil || doc.K != jmodel.Obj {
-			return false
-		}
-		for i := range want.Elems {
-			kt, _ := tjson.KeyText(want.Keys[i], tjson.Opts{})
-			m := doc.Get(kt)
-			if m == nil || !ex.walk(want.Elems[i], got.Elems[i], m, ty.Elem, u, o) {
-				return false
-			}
-		}
-		return true
-	}
-	return tm.DiffFieldsByID(want, got) == ""
-}
-
-// fillCutAlt: cutting rule with optional+default fields written regardless of WriteDefault.
-func fillCutAlt(v *tm.Value, ty *tm.Type, u *tm.Universe, o Opts) (*tm.Value, error) {
-	// emulate by treating such fields through the converter rule for optionals only
-	o2 := o
-	o2.WriteOptional = false
-	o2.WriteRequire = false
-	w, err := fill(v, ty, u, o2, ruleConv)
-	return w, err
-}
-
-func hasAbsent(v *tm.Value, ty *tm.Type, u *tm.Universe) bool {
-	switch ty.K {
-	case tm.STRUCT:
-		sd := u.Struct(ty.Ref)
-		for i := range sd.Fields {
-			fd := &sd.Fields[i]
-			if c := v.Field(fd.ID); c == nil {
-				return true
-			} else if hasAbsent(c, fd.T, u) {
-				return true
-			}
-		}
-	case tm.LIST, tm.SET, tm.MAP:
-		for _, e := range v.Elems {
-			if hasAbsent(e, ty.Elem, u) {
-				return true
-			}
-		}
-	}
-	return false
-}
-
-func b(x bool) int {
-	if x {
-		return 1
-	}
-	return 0
-}
-
-func head(x []byte) []byte {
-	if len(x) > 300 {
-		return x[:300]
-	}
-	return x
-}
-
-func show(b []byte) string {
-	if len(b) > 1500 {
-		return fmt.Sprintf("%s ...(%d bytes)... %s", b[:800], len(b), b[len(b)-500:])
-	}
-	return string(b)
-}
-
-// ---------------------------------------------------------------------------
-// generator
-
-func addDefaults(t *rapid.T, u *tm.Universe) {
-	for si := range u.Structs {
-		for fi := range u.Structs[si].Fields {
-			fd := &u.Structs[si].Fields[fi]
-			if rapid.IntRange(0, 2).Draw(t, "hasDefault") != 0 {
-				continue
-			}
-			switch fd.T.K {
-			case tm.BOOL:
-				fd.Default = &tm.Value{K: tm.BOOL, B: rapid.Bool().Draw(t, "defBool")}
-			case tm.BYTE, tm.I16, tm.I32, tm.I64:
-				fd.Default = &tm.Value{K: fd.T.K, I: tm.GenInt(t, fd.T.K)}
-			case tm.DOUBLE:
-				f := []float64{0, 1.5, -2.25, 100, 1e10, 0.001, -7, 123456.789}[rapid.IntRange(0, 7).Draw(t, "defDouble")]
-				fd.Default = &tm.Value{K: tm.DOUBLE, F: math.Float64bits(f)}
-			case tm.STRING:
-				if !fd.T.Bin {
-					s := []string{"", "x", "default value", "a/b", "日本"}[rapid.IntRange(0, 4).Draw(t, "defString")]
-					fd.Default = &tm.Value{K: tm.STRING, S: []byte(s)}
-				}
-			}
-		}
-	}
-}
-
-// dropFields removes present fields (required ones included) at any depth.
-func dropFields(t *rapid.T, v *tm.Value, dropReq bool) {
-	switch v.K {
-	case tm.STRUCT:
-		var keep []tm.FieldVal
-		for _, f := range v.Fields {
-			if dropReq && rapid.IntRange(0, 9).Draw(t, "drop") == 0 {
-				continue
-			}
-			dropFields(t, f.V, dropReq)
-			keep = append(keep, f)
-		}
-		v.Fields = keep
-	case tm.LIST, tm.SET, tm.MAP:
-		for _, e := range v.Elems {
-			dropFields(t, e, dropReq)
-		}
-	}
-}
-
-func gen(t *rapid.T) Case {
-	var o Opts
-	o.WriteRequire = rapid.Bool().Draw(t, "writeRequire")
-	o.WriteDefault = rapid.Bool().Draw(t, "writeDefault")
-	o.WriteOptional = rapid.Bool().Draw(t, "writeOptional")
-	o.Disallow = rapid.Bool().Draw(t, "disallow")
-	o.SetOptionalBitmap = rapid.Bool().Draw(t, "setOptionalBitmap")
-	o.UseDefaultValue = rapid.Bool().Draw(t, "useDefaultValue")
-	o.NotCheckRequire = rapid.IntRange(0, 3).Draw(t, "notCheckRequire") == 0
-	cfg := tm.GenCfg{MaxDepth: 3, KeyKinds: tjson.SupportedKeys, Reqs: true, Aliases: true, Recursive: true, WireOrder: true, ValidUTF8: true, FiniteDoubles: true,
-		NoSet: false, BigIDs: rapid.IntRange(0, 2).Draw(t, "bigIDs") == 0, RootStruct: rapid.IntRange(0, 3).Draw(t, "rootStruct") != 0,
-		BigSizes: rapid.IntRange(0, 5).Draw(t, "bigSizes") == 0}
-	u := tm.GenUniverse(t, cfg)
-	addDefaults(t, u)
-	v := tm.GenValue(t, u, u.Root, cfg)
-	dropFields(t, v, rapid.IntRange(0, 2).Draw(t, "dropRequired") == 0)
-	cs := Case{U: u, V: v, O: o}
-	doc := tjson.Write(t, v, u.Root, u, tjson.WOpts{Nulls: rapid.Bool().Draw(t, "nulls"), NullAny: true, Unknown: rapid.IntRange(0, 2).Draw(t, "unknowns") == 0}, rapid.Bool().Draw(t, "variants"))
-	// null members stand for absent fields; null map values drop the entry: the denoted value is what both directions are judged against
-	cs.V = doc.Denote
-	cs.Text, cs.Unknown, cs.Show = doc.Text, doc.Unknown, show(doc.Text)
-	wire := cs.V.Clone()
-	if rapid.IntRange(0, 2).Draw(t, "wireUnknown") == 0 {
-		cs.WireUnknown = tjson.InjectUnknown(t, wire, u.Root, u)
-	}
-	cs.Msg = tm.Encode(wire)
-	cs.FreshPools = rapid.IntRange(0, 15).Draw(t, "freshPools") == 0
-	return cs
-}
-
-var Prop = pbt.Register(pbt.Prop[Case]{
-	Name:  "TestRequirednessTable",
-	Rule:  "generated IDL with any mix of requiredness and scalar defaults at any depth (ids beyond 64/256/32767, recursion) parsed with SetOptionalBitmap x UseDefaultValue; inputs presenting any subset of the fields (absent, null, present; required ones may be missing; unknown members / undeclared wire fields) x all 2^4 combinations of WriteRequireField/WriteDefaultField/WriteOptionalField/DisallowUnknownField (generic: WriteDefault/NotCheckRequireNess/DisallowUnknow); the harness's truth-table model gives, per struct instance, the error or the exact set of fields with their values (present ones unchanged, absent ones filled with the parsed default or the zero value); j2t output, t2j output and generic MarshalTo onto an equal separately parsed descriptor are decoded and compared field by field (order of members free); error codes ErrMissRequiredField / ErrUnknownField; non-trivial = some declared field absent",
-	Gen:   gen,
-	Check: check,
-})
+var Prop = pbt.Register(reqcheck.Prop("TestRequirednessTable"))
 
 func TestRequirednessTable(t *testing.T) { pbt.Run(t, Prop) }
